@@ -71,6 +71,76 @@ def run_cases(P, cases, builds, want_model=True, envs=None):
             pass
     return out
 
+def conc_run(P, tier, seed, builds, okm, stats, violations, mismatches):
+    """C15: many fresh processes, N threads released by a barrier, outputs compared with the sequential model"""
+    import subprocess, re
+    rng = random.Random(seed)
+    base = P["gen"](tier, rng)
+    shared = bytes.fromhex(vlib.parse_case(base[0])[1].get("x", ""))
+    nproc = int(os.environ.get("VERIF_C15_PROCS", "150" if tier == "quick" else "3000"))
+    os.makedirs(vlib.CASES, exist_ok=True)
+    files = {}
+    for cpu in ("", "sse2", "none"):
+        lines = [base[0]] + [(l + (f" cpu={cpu}" if cpu and l.split()[0] in ("find", "rfind", "count", "iter", "mm", "sfind", "srfind", "siter") else "")) for l in base[1:]]
+        path = os.path.join(vlib.CASES, f"{P['id']}.{os.getpid()}.conc.{cpu or 'host'}")
+        vlib.write_cases(path, lines)
+        files[cpu] = (path, lines, vlib.run_model(path) if okm else None)
+    dist = {}
+    try:
+        for r in range(nproc):
+            n = [2, 4, 8, 16, 64][r % 5]
+            cpu = ["", "sse2", "none"][(r // 5) % 3]
+            bname, exe, _ = builds[r % len(builds)]
+            path, lines, mrows = files[cpu]
+            env = dict(os.environ)
+            if cpu:
+                env["MEMCHR_VERIF_CPU"] = cpu
+            p = subprocess.run([exe, "--conc", path, str(n)], stdout=subprocess.PIPE, stderr=subprocess.PIPE, env=env, timeout=600, text=True, errors="replace")
+            dist[f"{n} threads"] = dist.get(f"{n} threads", 0) + 1
+            rows = {}
+            for line in p.stdout.splitlines():
+                parts = line.split("\t")
+                if len(parts) == 3:
+                    rows[int(parts[0])] = (parts[1], parts[2])
+            for i, line in enumerate(lines):
+                if i == 0:
+                    continue
+                op, kv = vlib.parse_case(line)
+                res, tr = rows.get(i, (f"CRASH({p.returncode})", "-"))
+                t, flags = vlib.split_trace(tr)
+                stats["evaluations"] += 1
+                cres = vlib.canon_res(res)
+                m = gens_oracle_c15(op, kv, cres, t, flags, shared)
+                if res.startswith("CRASH") or res == "MISSING":
+                    m = m or f"process with {n} threads died or lost a result: {res}"
+                stats["oracle_checked"] += 1
+                if m:
+                    violations.append((f"[{n} threads, cpu={cpu or 'host'}, process {r}] " + m, line,
+                                       dict(build=bname, impl=res, threads=n, cpu=cpu, process=r), exe, None))
+                if mrows is not None and i < len(mrows):
+                    mres, mtr = mrows[i]
+                    if "release" in bname and vlib.debug_only_panic(mres):
+                        continue
+                    stats["compared_results"] += 1
+                    if vlib.canon_res(mres) != cres:
+                        mismatches.append((f"result mismatch [{bname}, {n} threads]: impl={res} model={mres}", line))
+                    elif t not in ("?", "-") or mtr != "-":
+                        if op in ("find", "rfind", "count", "iter", "mm"):
+                            stats["compared_traces"] += 1
+                            if mtr != t:
+                                mismatches.append((f"trace mismatch [{bname}, {n} threads]: impl={t} model={mtr}", line))
+    finally:
+        for (path, _, _) in files.values():
+            try:
+                os.remove(path)
+            except OSError:
+                pass
+    return base, dist, nproc
+
+def gens_oracle_c15(op, kv, res, t, flags, shared):
+    import gens
+    return gens.oracle_c15(op, kv, res, t, flags, shared)
+
 def shrink(P, line, exe, env, msg0):
     """greedy shrinking of the byte-string fields of a failing case while the oracle still fails"""
     op, kv = vlib.parse_case(line)
@@ -202,7 +272,15 @@ def main():
     log(f"cases: {len(cases)}")
     stats = dict(evaluations=0, compared_results=0, compared_traces=0, oracle_checked=0)
     mismatches = []
-    outs = run_cases(P, cases, builds, want_model=okm) if builds or okm else {}
+    conc_info = None
+    if P.get("runner") == "conc" and builds:
+        cases, cdist, nproc = conc_run(P, tier, seed, builds, okm, stats, violations, mismatches)
+        conc_info = dict(processes=nproc, thread_counts=cdist)
+        outs = {}
+        builds_for_loop = []
+    else:
+        builds_for_loop = builds
+    outs = run_cases(P, cases, builds_for_loop, want_model=okm) if (builds_for_loop or (okm and not conc_info)) else {}
     model_rows = outs.get("model")
     if model_rows is not None and len(model_rows) != len(cases):
         broken.append(("correspondence", "model driver", f"{len(model_rows)} rows for {len(cases)} cases: {model_rows[-1] if model_rows else ''}"))
@@ -214,7 +292,7 @@ def main():
         dist[op] = dist.get(op, 0) + 1
         if P["nontrivial"](op, kv):
             distinct.add(line)
-        for (bname, exe, env) in builds:
+        for (bname, exe, env) in builds_for_loop:
             res, tr = outs[bname][i]
             t, flags = vlib.split_trace(tr)
             stats["evaluations"] += 1
@@ -354,6 +432,8 @@ def main():
         exhaustive=False,
     )
     coverage.update(cert_stats)
+    if conc_info:
+        coverage.update(conc_info)
     coverage.update(P.get("extra_coverage", lambda: {})())
     vlib.write_evidence(pid, tier, seed, coverage, time.time() - t0, reported, P["assumptions"])
     for l in lines_out:
